@@ -80,7 +80,13 @@ def validity(typ, seg):
         r = YES
     elif typ == 'int':
         if _is_canon_int(seg):
-            r = YES
+            # a canonical numeral beyond the interpreter's conversion limit (4300 digits by default) has no value
+            # that could be delivered: the segment then does not satisfy the binding - and nothing may be raised
+            try:
+                int(seg)
+                r = YES
+            except ValueError:
+                r = NO
         else:
             try:
                 int(seg)
